@@ -472,3 +472,90 @@ func posOf(ci ssa.CallInstruction) token.Pos {
 	}
 	return ci.Pos()
 }
+
+// rpcUse is one RPC a function performs, either at a gorpc call site of its
+// own or through a one-level wrapper of the repository whose service/method
+// strings (and argument) are the wrapper's parameters.
+type rpcUse struct {
+	Svc, Method string
+	Call        ssa.CallInstruction // the call in the function itself (the gorpc call, or the call of the wrapper)
+	Arg         ssa.Value           // the RPC argument as a value of the function's own frame (nil if not expressible)
+	Local       bool
+	Wrapper     *ssa.Function
+}
+
+func (c *Ctx) rpcUsesIn(g *ssa.Function) []rpcUse {
+	var out []rpcUse
+	for _, rs := range c.RPC {
+		if rs.Fn != g || !rs.Resolved {
+			continue
+		}
+		pos := rpcArgPos[rs.Kind]
+		a := callArgs(rs.Call.Common())
+		for _, t := range rs.Targets {
+			u := rpcUse{Svc: t.Svc, Method: t.Method, Call: rs.Call, Local: rs.Local}
+			if pos[1]+2 < len(a) {
+				u.Arg = a[pos[1]+2]
+			}
+			out = append(out, u)
+		}
+	}
+	// through a wrapper
+	for _, ci := range callsIn(g) {
+		h := ci.Common().StaticCallee()
+		if h == nil || h.Blocks == nil || h == g {
+			continue
+		}
+		for _, rs := range c.RPC {
+			if rs.Fn != h {
+				continue
+			}
+			pos, ok := rpcArgPos[rs.Kind]
+			if !ok {
+				continue
+			}
+			a := callArgs(rs.Call.Common())
+			if pos[1]+2 >= len(a) {
+				continue
+			}
+			// each of dest / service / method: a constant in the wrapper
+			// or a parameter bound to a constant at this call
+			resolve := func(v ssa.Value) (string, bool) {
+				if s, ok := constString(stripLocal(v)); ok {
+					return s, true
+				}
+				if k := paramIndexLocal(h, v); k >= 0 && k < len(ci.Common().Args) {
+					return constString(ci.Common().Args[k])
+				}
+				return "", false
+			}
+			dest, okD := resolve(a[pos[0]])
+			svc, okS := resolve(a[pos[1]])
+			method, okM := resolve(a[pos[1]+1])
+			if !okS || !okM {
+				continue
+			}
+			u := rpcUse{Svc: svc, Method: method, Call: ci, Local: okD && dest == "", Wrapper: h}
+			arg := a[pos[1]+2]
+			if mi, ok := arg.(*ssa.MakeInterface); ok {
+				arg = mi.X
+			}
+			if k := paramIndexLocal(h, arg); k >= 0 && k < len(ci.Common().Args) {
+				u.Arg = ci.Common().Args[k]
+			}
+			out = append(out, u)
+		}
+	}
+	return out
+}
+
+// paramIndexLocal: v is parameter i of f itself (no helper aliasing).
+func paramIndexLocal(f *ssa.Function, v ssa.Value) int {
+	v = stripLocal(v)
+	for i, p := range f.Params {
+		if ssa.Value(p) == v {
+			return i
+		}
+	}
+	return -1
+}
